@@ -37,7 +37,7 @@ def run(tier):
     from .. import cfgstream
     ncfg, cstats, csizes, cbad = cfgstream.run(ck, 300 if tier == "quick" else 20000, ck.seed + 2)
     from .. import memstream
-    nmem, mstats, mbad = memstream.run(ck, 240 if tier == "quick" else 8000, ck.seed + 3)
+    nmem, mstats, mbad = memstream.run(ck, 480 if tier == "quick" else 12000, ck.seed + 3)
     if not proof_ok:
         ck.violation("tie-broken:proof", "Props/C01.v no longer checks against the regenerated tables", getattr(ck, "proof_output", "")[-2500:])
     ck.coverage.update(
